@@ -437,7 +437,11 @@ def correspond(ctx):
     for n in range(nvol):
         rr = r.fork()
         npts = rr.range(30, 60)
-        sp = {"cb": "plain", "metric": rr.choice(["L1", "Linf", "L2"]), "pts": G.pts_volume(rr, npts)}
+        if n % 6 == 5:
+            # kernel callbacks with wide values (k(x,x) up to 2^41) in the volume leg too
+            sp = G.gen_space(rr, npts, "kernel-lin-wide")
+        else:
+            sp = {"cb": "plain", "metric": rr.choice(["L1", "Linf", "L2"]), "pts": G.pts_volume(rr, npts)}
         methods = ["covertree"] + (["brute", "vptree"] if n % 8 == 0 else [])
         k = rr.choice([1, 1, 2, 3, 4, 5, 8])
         for method in methods:
@@ -452,7 +456,8 @@ def correspond(ctx):
     big = []
     sizes = [300] if quick else [500, 1000, 2000]
     for nbig in sizes:
-        for family in (["lattice", "dups"] if quick else ["lattice", "dups", "clustered", "grid-big", "kernel-lin"]):
+        for family in (["lattice", "dups", "kernel-lin-wide"] if quick else
+                       ["lattice", "dups", "clustered", "grid-big", "kernel-lin", "kernel-lin-wide", "wide-mantissa"]):
             rr = r.fork()
             if family == "grid-big":
                 side = int(nbig ** 0.5)
